@@ -16,6 +16,10 @@ parameters), the pre ops (fit / transform / update on OTHER data) run on it, the
 then the case's ops (which start with fit / fit_transform).  The model is run as a FRESH object with cfg: a refit
 must forget the history.  If the first fit of the case raises on the real object the case is not comparable (the
 old fitted state legitimately persists) and is skipped.
+"other": {"cfg": cfgB, "steps": [{"at": i, "ops": [...]}, ...]} (optional) = A SECOND OBJECT: before the case's op i
+another object B of the same class (same / other / default parameters; constructed at the first step) is fitted,
+updated and used on OTHER data.  The model and all clauses look at the case's own object only; in addition its
+results must equal those of the same history with no B (`<site>:other-object-interferes`).
 ["bc"] may carry optimiser options: ["bc", [lo, hi] | null, "mle" | "pearsonr"].
 `inv` with "ref": k is applied to the series the real code returned for op k (fallback "z").
 If shift != 0 the same history is run a second time on a fresh object with every label + shift.
@@ -69,7 +73,9 @@ ASSUMPTIONS = [
     "duplicate labels inside a batch passed to Detrender.fit/update are not modelled (pandas combine_first semantics); such cases are not sent to the model",
     "for ACF/PACF the output index is the lag, not time: the shift clause is read as 'output unchanged'",
 ]
-RULE = ("object history: a share of all cases (and a dedicated stream: every class x every neighbouring configuration) runs on an object that was "
+RULE = ("second object: a share of all cases (and a dedicated stream: every class x same / default / neighbouring parameters) has another object "
+        "of the same class constructed, fitted, updated and used on other data between the operations of the case's object; "
+        "object history: a share of all cases (and a dedicated stream: every class x every neighbouring configuration) runs on an object that was "
         "first constructed with other parameters, fitted / used on other data and then re-configured with set_params before the case's fit; "
         "values are held as float64 / float32 / int64 / int32 series (integer dtypes with integer-valued data; training series and later "
         "stretches vary independently, incl. a real-valued stretch after an integer training series; count-data stream with values up to 1000); "
@@ -284,8 +290,35 @@ def _apply(t, op, z):
     return _ser_token(r), (r if isinstance(r, pd.Series) else None)
 
 
-def _run_hist(case, shift, extras=None, with_pre=True):
+def _quiet_apply(t, op, z):
+    try:
+        with warnings.catch_warnings():
+            warnings.simplefilter("ignore")
+            with np.errstate(all="ignore"):
+                _apply(t, op, z)
+    except Exception:
+        pass
+
+
+def _run_hist(case, shift, extras=None, with_pre=True, with_other=True):
     cfg, itype = case["cfg"], case.get("itype", "range")
+    other = case.get("other") if with_other else None
+    tB = [None]
+
+    def run_other(at):
+        # a second, unrelated object of the same class used between the operations of the case's object
+        if not other:
+            return
+        for st in other["steps"]:
+            if st["at"] == at:
+                if tB[0] is None:
+                    try:
+                        tB[0] = _build(other["cfg"])
+                    except Exception:
+                        return
+                for bop in st["ops"]:
+                    _quiet_apply(tB[0], bop, _mk_input(bop["z"], itype, shift))
+
     pre = case.get("pre") if with_pre else None
     if pre:
         # object history: another configuration fitted / used on other data, then set_params
@@ -303,6 +336,7 @@ def _run_hist(case, shift, extras=None, with_pre=True):
         t = _build(cfg)
     toks, sers = [], []
     for i, op in enumerate(case["ops"]):
+        run_other(i)
         z = None
         if op["op"] == "inv" and op.get("ref") is not None and op["ref"] < len(sers) and sers[op["ref"]] is not None:
             z = sers[op["ref"]].copy()
@@ -377,7 +411,9 @@ def run_real(case):
         if case.get("pre"):
             if not main or main[0].startswith(("E:", "?")) or case["ops"][0]["op"] not in ("fit", "ft"):
                 return "SKIP-PRE @@ {}"
-            extras["fresh"] = " ".join(_run_hist(case, 0, None, with_pre=False))
+            extras["fresh"] = " ".join(_run_hist(case, 0, None, with_pre=False, with_other=False))
+        if case.get("other"):
+            extras["alone"] = " ".join(_run_hist(case, 0, None, with_other=False))
         out = " ".join(main)
         if case.get("shift", 0):
             out += " ## " + " ".join(_run_hist(case, int(case["shift"])))
@@ -830,6 +866,17 @@ def oracle(case, out):
                         % (i, ops[i]["op"], case["pre"]["cfg"], a[:160], b[:160]))
                     break
 
+    # (7) a second object of the same class, used in between, does not influence this one
+    if case.get("other") and "alone" in extras:
+        alone = extras["alone"].split(" ")
+        if len(alone) == len(main):
+            for i, (a, b) in enumerate(zip(main, alone)):
+                if not _tok_close(a, b, 1e-12):
+                    add(site + ":other-object-interferes",
+                        "op %d (%s): with another %s object (%r) used in between -> %s ; alone -> %s"
+                        % (i, ops[i]["op"], SITE.get(case["other"]["cfg"][0], "OptionalPassthrough"), case["other"]["cfg"], a[:150], b[:150]))
+                    break
+
     # (5) shifting the integer index of all inputs shifts the output index, values unchanged
     if shifted is not None:
         c = int(case["shift"])
@@ -875,6 +922,9 @@ def features(case, out):
         main = []
     f.append("ops=%d" % min(len(case["ops"]), 8))
     f.append("shift=" + ("0" if not case.get("shift") else "nonzero"))
+    if case.get("other"):
+        f.append("second-object")
+        f.append("second-object:" + cfg[0] + ("(same-params)" if case["other"]["cfg"] == cfg else ""))
     if case.get("pre"):
         f.append("object-history" + (":skipped" if out.startswith("SKIP-PRE") else ""))
         f.append("history:" + (cfg[0] if cfg[0] != "pass" else "pass(%s->%s)" % ("T" if case["pre"]["cfg"][1] else "F", "T" if cfg[1] else "F")))
@@ -1163,6 +1213,69 @@ def _attach_history(rng, case, cfg0=None):
     return True
 
 
+_DEFAULTS = {"des": ["des", 1, "A"], "cdes": ["cdes", 1, "A", "default"], "det": ["det", 1, "default"], "bc": ["bc"],
+             "hampel": ["hampel", 10, 3, HAMPEL_K], "imputer": ["imputer", "drift"]}
+
+
+def _attach_other(rng, case, cfgB=None):
+    """a second object B of the same class, used on other data between the operations of the case's object"""
+    ops = case["ops"]
+    if case.get("other") or not ops or (case["cfg"][0] == "pass" and case["cfg"][2][0] == "pass"):
+        return False
+    cfg = case["cfg"]
+    if cfgB is None:
+        r = rng.random()
+        cfgB = list(cfg) if r < 0.4 else (_DEFAULTS.get(cfg[0], list(cfg)) if r < 0.6 else rng.choice(_neighbours(cfg)))
+    t0 = next((o["z"]["l"][0] for o in ops if _is_series(o["z"]) and o["z"]["l"]), 0)
+    bops = _pre_history(rng, cfgB, t0)["ops"]
+    for _ in range(rng.randrange(0, 3)):
+        c = cfgB[2] if cfgB[0] == "pass" else cfgB
+        sp = c[1] if c[0] in ("des", "cdes") else 2
+        k = rng.choice(["fit", "upd", "tr", "ft"])
+        zz = _seasonal_series(rng, t0 + rng.randrange(-9, 30), max(_train_len(cfgB), 4) + rng.randrange(0, 4), sp)
+        bops.append({"op": k, "z": zz, "up": None})
+    # spread B's calls over the slots 0..len(ops)-1 (mostly BETWEEN the operations of the case's object)
+    slots = sorted(rng.choice([0] + list(range(1, len(ops))) * 3) if len(ops) > 1 else 0 for _ in bops)
+    steps = {}
+    for at, bop in zip(slots, bops):
+        steps.setdefault(at, []).append(bop)
+    case["other"] = {"cfg": cfgB, "steps": [{"at": at, "ops": o} for at, o in sorted(steps.items())]}
+    return True
+
+
+def _gen_other(tier, rng, cases):
+    """every class x (same parameters | default-constructed | neighbouring configuration) as the second object"""
+    bases = [["des", 4, "A"], ["des", 1, "A"], ["cdes", 3, "A", "true"], ["cdes", 1, "A", "default"], ["det", 1], ["det", 0],
+             ["det", 1, "default"], ["bc"], ["bc", [0, 1], "mle"], ["log"], ["ad", "minmax"], ["ad", "standard"],
+             ["hampel", 3, 3, HAMPEL_K], ["imputer", "linear"], ["imputer", "drift"], ["acf", 2], ["cos"],
+             ["pass", False, ["det", 1, "default"]], ["pass", False, ["des", 2, "A"]], ["pass", True, ["bc"]], ["pass", False, ["ad", "minmax"]]]
+    reps = 2 if tier == "quick" else 12
+    for cfg in bases:
+        others = [list(cfg)]
+        if cfg[0] in _DEFAULTS and _DEFAULTS[cfg[0]] != cfg:
+            others.append(_DEFAULTS[cfg[0]])
+        nb = _neighbours(cfg)
+        others += [nb[0]] if tier == "quick" else nb[:4]
+        for cfgB in others:
+            for _ in range(reps):
+                c = cfg[2] if cfg[0] == "pass" else cfg
+                sp = c[1] if c[0] in ("des", "cdes") else 2
+                t0 = rng.choice([-5, 0, 6])
+                n = max(_train_len(cfg), 4) + rng.randrange(0, 7)
+                z1 = _seasonal_series(rng, t0, n, sp)
+                if cfg[0] == "imputer":
+                    z1["v"] = [None if (rng.random() < 0.2 and 0 < i < n - 1) else v for i, v in enumerate(z1["v"])]
+                z2 = _series(rng, t0 + rng.randrange(-3, n + 3), rng.randrange(1, 6))
+                ops = [{"op": "fit", "z": z1}, {"op": "tr", "z": z1}, {"op": "inv", "z": z1, "ref": 1},
+                       {"op": "tr", "z": z2}, {"op": "inv", "z": z2, "ref": 3}]
+                if c[0] in ("des", "cdes", "det") and cfg[0] != "pass" and rng.random() < 0.4:
+                    ops.insert(3, {"op": "upd", "z": _series(rng, t0 + n, 2), "up": None})
+                    ops[-1]["ref"] = 4
+                case = {"cfg": cfg, "itype": rng.choice(["range", "int64"]), "shift": rng.choice([0, 0, 4, -6]), "ops": ops}
+                _attach_other(rng, case, cfgB)
+                cases.append(case)
+
+
 def _gen_history(tier, rng, cases):
     """every class x every neighbouring configuration it may have had before set_params + fit"""
     bases = [["des", 4, "A"], ["des", 2, "M"], ["cdes", 3, "A", "true"], ["cdes", 2, "M", "false"], ["det", 1], ["det", 0],
@@ -1338,6 +1451,11 @@ def gen_cases(tier, rng):
     _gen_random(tier, rng, cases)
     _gen_random(tier, rng, cases, malformed=True)
     _gen_history(tier, rng, cases)
+    _gen_other(tier, rng, cases)
+    # a second object of the same class used in between, for a share of all other cases
+    for c in cases:
+        if rng.random() < 0.2:
+            _attach_other(rng, c)
     # object history for a share of all other cases (the first call must be a fit on a valid series)
     for c in cases:
         if rng.random() < 0.25:
@@ -1367,13 +1485,31 @@ def _fix_refs(ops, removed):
     return out
 
 
+def _drop_op(c, i):
+    d = dict(c, ops=_fix_refs(c["ops"], i))
+    if c.get("other"):
+        d["other"] = dict(c["other"], steps=[dict(st, at=st["at"] - 1 if st["at"] > i else st["at"]) for st in c["other"]["steps"]])
+    return d
+
+
 def shrink(c):
     ops = c["ops"]
     if c.get("shift"):
         yield dict(c, shift=0)
+    if c.get("other"):
+        yield {k: v for k, v in c.items() if k != "other"}
+        st = c["other"]["steps"]
+        for j in range(len(st) - 1, 0, -1):
+            yield dict(c, other=dict(c["other"], steps=st[:j] + st[j + 1:]))
+        for j, sj in enumerate(st):
+            for m in range(len(sj["ops"]) - 1, 0 if j == 0 else -1, -1):
+                if len(sj["ops"]) > 1:
+                    yield dict(c, other=dict(c["other"], steps=st[:j] + [dict(sj, ops=sj["ops"][:m] + sj["ops"][m + 1:])] + st[j + 1:]))
+    if c.get("pre"):
+        yield {k: v for k, v in c.items() if k != "pre"}
     for i in range(len(ops) - 1, -1, -1):
         if len(ops) > 1:
-            yield dict(c, ops=_fix_refs(ops, i))
+            yield _drop_op(c, i)
     for i, o in enumerate(ops):
         z = o["z"]
         if _is_series(z) and len(z["l"]) > 1:
